@@ -9,13 +9,13 @@ use vmon::*;
 const RULE: &str = "events: print = to_hex_string/to_bin_string/Display/{:x}/{:b} of one table compared with \
 the model's rendering, plus parse(print(f)) == f; parse = from_hex_string(n, s) compared with the \
 well-formedness oracle (exactly width hex digits whose value fits in 2^n bits => the denoted function; \
-anything else => Err; never a panic). Strings: all strings over a 24-symbol alphabet up to width+2 for \
+anything else => Err; never a panic). Strings: all strings over a 26-symbol alphabet up to width+2 for \
 n<=3, mutations of valid strings above. non-trivial print = function neither constant nor literal; \
 non-trivial parse = string differs from every rendering of a constant; distinct = distinct (op, type, n, table or string)";
 
-const ALPHABET: [&str; 24] = [
+const ALPHABET: [&str; 26] = [
     "0", "1", "2", "3", "4", "5", "6", "7", "8", "9", "a", "b", "c", "d", "e", "f", "A", "F", "+",
-    "-", " ", "g", "x", "é",
+    "-", " ", "g", "x", "é", "а", "１", // the last two: Cyrillic a (U+0430, low byte '0'), fullwidth digit one
 ];
 const HOSTILE: [&str; 14] = ["+", "-", " ", "g", "x", "G", "é", "\u{0}", "_", ".", "٣", "\n", "X", "ß"];
 
@@ -156,10 +156,28 @@ fn both(ctx: &mut Ctx, n: usize, mk: impl Fn(&str) -> Ev) {
 fn nth_string(mut k: u64, len: usize) -> String {
     let mut s = String::new();
     for _ in 0..len {
-        s.push_str(ALPHABET[(k % 24) as usize]);
-        k /= 24;
+        s.push_str(ALPHABET[(k % ALPHABET.len() as u64) as usize]);
+        k /= ALPHABET.len() as u64;
     }
     s
+}
+
+/// A non-ASCII character that a sloppy decoder could take for a hex digit: its code point modulo 256 is an
+/// ASCII hex digit (several planes), or it is a Unicode digit / fullwidth letter.
+fn lookalike(rng: &mut Rng) -> String {
+    let hex = b"0123456789abcdefABCDEF";
+    let low = hex[rng.below(hex.len())] as u32;
+    let cp = match rng.below(8) {
+        0 => 0x0100 + low,
+        1 => 0x0400 + low,
+        2 => 0x3000 + low,
+        3 => 0x2600 + low,
+        4 => 0x1f600 + low,
+        5 => 0xff10 + rng.below(10) as u32,       // fullwidth digits
+        6 => 0x0660 + rng.below(10) as u32,       // Arabic-Indic digits
+        _ => 0xff21 + rng.below(6) as u32,        // fullwidth A..F
+    };
+    char::from_u32(cp).unwrap_or('é').to_string()
 }
 
 fn replace_char(s: &str, pos: usize, with: &str) -> String {
@@ -201,6 +219,8 @@ fn mutations(ctx: &mut Ctx, n: usize, valid: &str, rng: &mut Rng, heavy: bool) {
         for h in picks {
             both(ctx, n, parse(replace_char(valid, *p, h)));
         }
+        let la = lookalike(rng);
+        both(ctx, n, parse(replace_char(valid, *p, &la)));
     }
     // '+' and '-' at the start of every chunk (u64::from_str_radix accepts a leading '+')
     for c in 0..chunks {
@@ -301,7 +321,7 @@ fn main() {
             "strings" => {
                 let w = Model::hex_width(n);
                 for len in 0..=w + 2 {
-                    let total = 24u64.pow(len as u32);
+                    let total = (ALPHABET.len() as u64).pow(len as u32);
                     for kk in 0..total {
                         if (kk as usize) % chunks != c {
                             continue;
@@ -310,7 +330,7 @@ fn main() {
                         both(ctx, n, |ty| Ev::new("parse", ty, n).st(&s));
                     }
                 }
-                ctx.exhaustive.insert(format!("all strings over the 24-symbol alphabet up to length width+2, n={}", n), true);
+                ctx.exhaustive.insert(format!("all strings over the 26-symbol alphabet up to length width+2, n={}", n), true);
             }
             _ => {
                 let reps = if thorough { 300 } else { 3 };
